@@ -113,6 +113,11 @@ def check_f16c(rep, f, where, rule='R02.f16c'):
         src = c.args[0]
         ok2 = src.op == 'insertelement' and src.args[1].op == 'arg'
         rep.ob('vcvtps2ph operand', rule, HOLDS if ok2 else VIOLATED, '' if ok2 else 'the converted value is %s, expected the argument unmodified' % T.show(src, 3), where, nontrivial=False)
+        # ... on every path: the F16C float->half has no branch (a software early-out for some class of inputs would bypass the
+        # instruction, and with it the hardware's rounding and NaN handling, for that class only)
+        br = uses(f[0], lambda y: y.op == 'ite')
+        rep.ob('vcvtps2ph on every path', rule, HOLDS if br is None else VIOLATED, 'the F16C float->half is the instruction\'s result for every input (no branch)' if br is None else
+               'the F16C float->half branches on %s: inputs on the other arm are not converted by the instruction (%s)' % (T.show(br.args[0], 3)[:120], T.show(br.args[1], 3)[:100]), where, nontrivial=False)
     h = f[1]
     ok3 = h.op == 'fpext' and h.args[0].op == 'bitcast' and h.args[0].args[0].op == 'arg'
     rep.ob('vcvtph2ps operand', rule, HOLDS if ok3 else VIOLATED, '' if ok3 else 'half->float on F16C is %s, expected the conversion of h unmodified' % T.show(h, 4), where, nontrivial=False)
